@@ -204,21 +204,21 @@ FUNCTIONS = {
     ensures=_HOOK_ENS + ['self._size >= old(self._size)'],
     modifies=_HOOK_MOD, allocates='any', drop=['AsyncResult'], props=['C03', 'C04'],
     # the heap balancer's own hooks change no membership (C05 is claimed for the heap balancer only)
-    aspects={'ap': dict(requires=_AP_EXT, ensures=_AP_EXT, props=['C06']), 'mem': dict(ensures=['forall(e, "any", has_key(self.g_node, e) == old(has_key(self.g_node, e)) and self.g_node[e] == old(self.g_node[e]))', 'self.g_node == old(self.g_node)', 'forall_ref(r, Node, inheap(self._heap, r) == old(inheap(self._heap, r)), r.index)', 'implies(old(HM_all(self)), self._heap[0].endpoint is None and allocated(self._servers) and allocated(self.g_node))', 'implies(old(HM_all(self)), HM_sub(self))', 'implies(old(HM_all(self)), HM_inj(self))', 'implies(old(HM_all(self)), HM_sup1(self))', 'implies(old(HM_all(self)), HM_sup2(self))', 'implies(old(HM_all(self)), HM_sup3(self))'], props=['C05'])},
+    aspects={'ap': dict(requires=_AP_EXT, ensures=_AP_EXT + ['implies(dyn_is(self, ApertureBalancerSink), cast(self, ApertureBalancerSink)._total == old(cast(self, ApertureBalancerSink)._total))'], entry_assume=['not dyn_is(self, ApertureBalancerSink)'], props=['C06']), 'mem': dict(ensures=['forall(e, "any", has_key(self.g_node, e) == old(has_key(self.g_node, e)) and self.g_node[e] == old(self.g_node[e]))', 'self.g_node == old(self.g_node)', 'forall_ref(r, Node, inheap(self._heap, r) == old(inheap(self._heap, r)), r.index)', 'implies(old(HM_all(self)), self._heap[0].endpoint is None and allocated(self._servers) and allocated(self.g_node))', 'implies(old(HM_all(self)), HM_sub(self))', 'implies(old(HM_all(self)), HM_inj(self))', 'implies(old(HM_all(self)), HM_sup1(self))', 'implies(old(HM_all(self)), HM_sup2(self))', 'implies(old(HM_all(self)), HM_sup3(self))'], props=['C05'])},
   ),
   'HeapBalancerSink._OnPut': dict(
     cls='HeapBalancerSink', params={'node': 'Node'},
     requires=['HeapInv(self)'],
     ensures=_HOOK_ENS,
     modifies=_HOOK_MOD, allocates='any', drop=['AsyncResult'], props=['C03', 'C04'],
-    aspects={'ap': dict(requires=_AP_EXT, ensures=_AP_EXT, props=['C06']), 'mem': dict(ensures=['forall(e, "any", has_key(self.g_node, e) == old(has_key(self.g_node, e)) and self.g_node[e] == old(self.g_node[e]))', 'self.g_node == old(self.g_node)', 'forall_ref(r, Node, inheap(self._heap, r) == old(inheap(self._heap, r)), r.index)', 'implies(old(HM_all(self)), self._heap[0].endpoint is None and allocated(self._servers) and allocated(self.g_node))', 'implies(old(HM_all(self)), HM_sub(self))', 'implies(old(HM_all(self)), HM_inj(self))', 'implies(old(HM_all(self)), HM_sup1(self))', 'implies(old(HM_all(self)), HM_sup2(self))', 'implies(old(HM_all(self)), HM_sup3(self))'], props=['C05'])},
+    aspects={'ap': dict(requires=_AP_EXT, ensures=_AP_EXT + ['implies(dyn_is(self, ApertureBalancerSink), cast(self, ApertureBalancerSink)._total == old(cast(self, ApertureBalancerSink)._total) - 1)'], entry_assume=['not dyn_is(self, ApertureBalancerSink)'], props=['C06']), 'mem': dict(ensures=['forall(e, "any", has_key(self.g_node, e) == old(has_key(self.g_node, e)) and self.g_node[e] == old(self.g_node[e]))', 'self.g_node == old(self.g_node)', 'forall_ref(r, Node, inheap(self._heap, r) == old(inheap(self._heap, r)), r.index)', 'implies(old(HM_all(self)), self._heap[0].endpoint is None and allocated(self._servers) and allocated(self.g_node))', 'implies(old(HM_all(self)), HM_sub(self))', 'implies(old(HM_all(self)), HM_inj(self))', 'implies(old(HM_all(self)), HM_sup1(self))', 'implies(old(HM_all(self)), HM_sup2(self))', 'implies(old(HM_all(self)), HM_sup3(self))'], props=['C05'])},
   ),
   'HeapBalancerSink._OnGet': dict(
     cls='HeapBalancerSink', params={'node': 'Node'},
     requires=['HeapInv(self)'],
     ensures=_HOOK_ENS,
     modifies=_HOOK_MOD, allocates='any', drop=['AsyncResult'], props=['C03', 'C04'],
-    aspects={'ap': dict(requires=_AP_EXT, ensures=_AP_EXT, props=['C06']), 'mem': dict(ensures=['forall(e, "any", has_key(self.g_node, e) == old(has_key(self.g_node, e)) and self.g_node[e] == old(self.g_node[e]))', 'self.g_node == old(self.g_node)', 'forall_ref(r, Node, inheap(self._heap, r) == old(inheap(self._heap, r)), r.index)', 'implies(old(HM_all(self)), self._heap[0].endpoint is None and allocated(self._servers) and allocated(self.g_node))', 'implies(old(HM_all(self)), HM_sub(self))', 'implies(old(HM_all(self)), HM_inj(self))', 'implies(old(HM_all(self)), HM_sup1(self))', 'implies(old(HM_all(self)), HM_sup2(self))', 'implies(old(HM_all(self)), HM_sup3(self))'], props=['C05'])},
+    aspects={'ap': dict(requires=_AP_EXT, ensures=_AP_EXT + ['implies(dyn_is(self, ApertureBalancerSink), cast(self, ApertureBalancerSink)._total == old(cast(self, ApertureBalancerSink)._total) + 1)'], entry_assume=['not dyn_is(self, ApertureBalancerSink)'], props=['C06']), 'mem': dict(ensures=['forall(e, "any", has_key(self.g_node, e) == old(has_key(self.g_node, e)) and self.g_node[e] == old(self.g_node[e]))', 'self.g_node == old(self.g_node)', 'forall_ref(r, Node, inheap(self._heap, r) == old(inheap(self._heap, r)), r.index)', 'implies(old(HM_all(self)), self._heap[0].endpoint is None and allocated(self._servers) and allocated(self.g_node))', 'implies(old(HM_all(self)), HM_sub(self))', 'implies(old(HM_all(self)), HM_inj(self))', 'implies(old(HM_all(self)), HM_sup1(self))', 'implies(old(HM_all(self)), HM_sup2(self))', 'implies(old(HM_all(self)), HM_sup3(self))'], props=['C05'])},
   ),
 
   'HeapBalancerSink.__Get': dict(
@@ -237,7 +237,7 @@ FUNCTIONS = {
     ],
     allocates='any',
     # C05: taking a member for a request changes nobody's membership
-    aspects={'ap': dict(requires=_AP_EXT, ensures=_AP_EXT, loops={0: _AP_EXT, 1: _AP_EXT}, props=['C06']), 'mem': dict(ensures=['forall_ref(r, Node, inheap(self._heap, r) == old(inheap(self._heap, r)), r.index)', 'implies(old(HM_all(self)), self._heap[0].endpoint is None and allocated(self._servers) and allocated(self.g_node))', 'implies(old(HM_all(self)), HM_sub(self))', 'implies(old(HM_all(self)), HM_inj(self))', 'implies(old(HM_all(self)), HM_sup1(self))', 'implies(old(HM_all(self)), HM_sup2(self))', 'implies(old(HM_all(self)), HM_sup3(self))'], loops={0: ['forall_ref(r, Node, inheap(self._heap, r) == old(inheap(self._heap, r)), r.index)', 'implies(old(HM_all(self)), self._heap[0].endpoint is None and allocated(self._servers) and allocated(self.g_node))', 'implies(old(HM_all(self)), HM_sub(self))', 'implies(old(HM_all(self)), HM_inj(self))', 'implies(old(HM_all(self)), HM_sup1(self))', 'implies(old(HM_all(self)), HM_sup2(self))', 'implies(old(HM_all(self)), HM_sup3(self))'], 1: ['forall_ref(r, Node, inheap(self._heap, r) == old(inheap(self._heap, r)), r.index)', 'implies(old(HM_all(self)), self._heap[0].endpoint is None and allocated(self._servers) and allocated(self.g_node))', 'implies(old(HM_all(self)), HM_sub(self))', 'implies(old(HM_all(self)), HM_inj(self))', 'implies(old(HM_all(self)), HM_sup1(self))', 'implies(old(HM_all(self)), HM_sup2(self))', 'implies(old(HM_all(self)), HM_sup3(self))']}, props=['C05'])},
+    aspects={'ap': dict(requires=_AP_EXT, ensures=_AP_EXT + ['implies(dyn_is(self, ApertureBalancerSink), cast(self, ApertureBalancerSink)._total == old(cast(self, ApertureBalancerSink)._total))'], loops={0: _AP_EXT + ['implies(dyn_is(self, ApertureBalancerSink), cast(self, ApertureBalancerSink)._total == old(cast(self, ApertureBalancerSink)._total))'], 1: _AP_EXT + ['implies(dyn_is(self, ApertureBalancerSink), cast(self, ApertureBalancerSink)._total == old(cast(self, ApertureBalancerSink)._total))']}, props=['C06']), 'mem': dict(ensures=['forall_ref(r, Node, inheap(self._heap, r) == old(inheap(self._heap, r)), r.index)', 'implies(old(HM_all(self)), self._heap[0].endpoint is None and allocated(self._servers) and allocated(self.g_node))', 'implies(old(HM_all(self)), HM_sub(self))', 'implies(old(HM_all(self)), HM_inj(self))', 'implies(old(HM_all(self)), HM_sup1(self))', 'implies(old(HM_all(self)), HM_sup2(self))', 'implies(old(HM_all(self)), HM_sup3(self))'], loops={0: ['forall_ref(r, Node, inheap(self._heap, r) == old(inheap(self._heap, r)), r.index)', 'implies(old(HM_all(self)), self._heap[0].endpoint is None and allocated(self._servers) and allocated(self.g_node))', 'implies(old(HM_all(self)), HM_sub(self))', 'implies(old(HM_all(self)), HM_inj(self))', 'implies(old(HM_all(self)), HM_sup1(self))', 'implies(old(HM_all(self)), HM_sup2(self))', 'implies(old(HM_all(self)), HM_sup3(self))'], 1: ['forall_ref(r, Node, inheap(self._heap, r) == old(inheap(self._heap, r)), r.index)', 'implies(old(HM_all(self)), self._heap[0].endpoint is None and allocated(self._servers) and allocated(self.g_node))', 'implies(old(HM_all(self)), HM_sub(self))', 'implies(old(HM_all(self)), HM_inj(self))', 'implies(old(HM_all(self)), HM_sup1(self))', 'implies(old(HM_all(self)), HM_sup2(self))', 'implies(old(HM_all(self)), HM_sup3(self))']}, props=['C05'])},
     lemmas=['k: lemma_root_min(self._heap, self._size, k)'],
     modifies=_HOOK_MOD + ['HeapBalancerSink._downq'],
     ghost=[
@@ -269,7 +269,7 @@ FUNCTIONS = {
              # a release never closes a member that still holds requests (the aperture hook may retire an idle one)
              'forall_ref(r, Node, implies(old(allocated(r)) and r.g_out > 0 and r.load < 0 and r.channel != n.channel, r.channel.state == old(r.channel.state)), r.g_out)',
              'implies(n.g_out > 0 and n.load < 0, n.channel.state == old(n.channel.state))'],
-    aspects={'ap': dict(requires=_AP_EXT, ensures=_AP_EXT, props=['C06']), 'mem': dict(ensures=['forall_ref(r, Node, inheap(self._heap, r) == old(inheap(self._heap, r)), r.index)', 'implies(old(HM_all(self)), self._heap[0].endpoint is None and allocated(self._servers) and allocated(self.g_node))', 'implies(old(HM_all(self)), HM_sub(self))', 'implies(old(HM_all(self)), HM_inj(self))', 'implies(old(HM_all(self)), HM_sup1(self))', 'implies(old(HM_all(self)), HM_sup2(self))', 'implies(old(HM_all(self)), HM_sup3(self))'], props=['C05'])},
+    aspects={'ap': dict(requires=_AP_EXT, ensures=_AP_EXT + ['implies(dyn_is(self, ApertureBalancerSink), cast(self, ApertureBalancerSink)._total == old(cast(self, ApertureBalancerSink)._total) - 1)'], props=['C06']), 'mem': dict(ensures=['forall_ref(r, Node, inheap(self._heap, r) == old(inheap(self._heap, r)), r.index)', 'implies(old(HM_all(self)), self._heap[0].endpoint is None and allocated(self._servers) and allocated(self.g_node))', 'implies(old(HM_all(self)), HM_sub(self))', 'implies(old(HM_all(self)), HM_inj(self))', 'implies(old(HM_all(self)), HM_sup1(self))', 'implies(old(HM_all(self)), HM_sup2(self))', 'implies(old(HM_all(self)), HM_sup3(self))'], props=['C05'])},
     modifies=_HOOK_MOD, allocates='any',
     ghost=[
       {'after': 'n.load -= 1', 'do': ['n.g_out = n.g_out - 1']},
@@ -342,7 +342,7 @@ def lemma_root_min(heap, n, k):
              'implies(not old(put_called[0]), n.g_out == old(n.g_out) - 1)',
              'forall_ref(r, Node, implies(r != n and old(allocated(r)), r.g_out == old(r.g_out)), r.g_out)'],
     modifies=_HOOK_MOD + ['list[bool]'], allocates='any',
-    aspects={'ap': dict(requires=_AP_EXT, ensures=_AP_EXT, props=['C06'])},
+    aspects={'ap': dict(requires=_AP_EXT, ensures=_AP_EXT + ['implies(dyn_is(self, ApertureBalancerSink), cast(self, ApertureBalancerSink)._total == old(cast(self, ApertureBalancerSink)._total) - (0 if old(put_called[0]) else 1))'], props=['C06'])},
     props=['C04'],
   ),
 
@@ -375,7 +375,8 @@ def lemma_root_min(heap, n, k):
         'prove(HeapInv(self), "invariant-before-forward")',
       ]},
     ],
-    aspects={'ap': dict(requires=_AP_EXT, ghost=[{'before': 'channel.AsyncProcessRequest(sink_stack, msg, stream, headers)', 'do': ['prove(ApExt(self), "aperture-invariant-before-forward")']}], props=['C06'])},
+    aspects={'ap': dict(requires=_AP_EXT, ghost=[{'before': 'channel.AsyncProcessRequest(sink_stack, msg, stream, headers)', 'do': ['prove(ApExt(self), "aperture-invariant-before-forward")',
+        'prove(implies(dyn_is(self, ApertureBalancerSink), cast(self, ApertureBalancerSink)._total == old(cast(self, ApertureBalancerSink)._total) + (0 if old(self._size) == 0 else 1)), "every-dispatch-is-counted-once")']}], props=['C06'])},
     props=['C03', 'C04'],
   ),
 
